@@ -1506,21 +1506,30 @@ class ArrowSerializableDataclass:
                 )
             return inner_type(**nested_kwargs)
 
-        # Handle frozenset reconstruction
-        if get_origin(inner_type) is frozenset and isinstance(value, list):
+        origin = get_origin(inner_type)
+        args = get_args(inner_type)
+
+        # Handle frozenset reconstruction (elements converted like list elements:
+        # an Enum arrives as its name, a nested dataclass as a struct dict)
+        if origin is frozenset and isinstance(value, list):
+            if args:
+                element_type = args[0]
+                return frozenset(cls._convert_value_for_deserialization(v, element_type, ipc_validation) for v in value)
             return frozenset(value)
 
-        # Handle dict reconstruction from list of tuples
-        if get_origin(inner_type) is dict and isinstance(value, list):
-            return dict(cast("list[tuple[object, object]]", value))
+        # Handle dict reconstruction from list of tuples (keys and values converted)
+        if origin is dict and isinstance(value, list):
+            items = cast("list[tuple[object, object]]", value)
+            if len(args) >= 2:
+                convert = cls._convert_value_for_deserialization
+                key_type, value_type = args[0], args[1]
+                return {convert(k, key_type, ipc_validation): convert(v, value_type, ipc_validation) for k, v in items}
+            return dict(items)
 
         # Handle list with element type conversion
-        origin = get_origin(inner_type)
-        if origin is list:
-            args = get_args(inner_type)
-            if args and isinstance(value, list):
-                element_type = args[0]
-                return [cls._convert_value_for_deserialization(v, element_type, ipc_validation) for v in value]
+        if origin is list and args and isinstance(value, list):
+            element_type = args[0]
+            return [cls._convert_value_for_deserialization(v, element_type, ipc_validation) for v in value]
 
         return value
 
